@@ -46,6 +46,8 @@ class WireTie:
     def __init__(self, ctx, gtirb, flush_at=40):
         self.ctx, self.g = ctx, gtirb
         self.cases = []
+        self.raws = []
+        self.files = []
         self.flush_at = flush_at
 
     def add(self, tag, msg, raw, strict=True):
@@ -59,12 +61,152 @@ class WireTie:
         if len(self.cases) >= self.flush_at:
             self.flush()
 
+    def add_faulty_file(self, tag, raw_file, expected):
+        """a corrupted file: binding only on the header (the model must not
+        reject the header of a file the real loader accepts); the other
+        combinations are counted (the value-level reader leaves duplicated
+        UUIDs out, protobuf is lenient on corrupt bodies)"""
+        self.files.append((tag, "loadfile " + (bytes(raw_file).hex() or "-"),
+                           expected, "faulty"))
+
+    def add_file(self, tag, raw_file, expected):
+        """end to end, the function the file-level theorems are about:
+        `Msg.loadBytes parseMIR` on a whole file (header included) against
+        what the real `IR.load_protobuf_file` gave for the same bytes
+        (`expected`: "ok <dump of the loaded IR>" or an error class)"""
+        self.files.append((tag, "loadfile " + (bytes(raw_file).hex() or "-"),
+                           expected, None))
+
+    def add_save(self, tag, V, load_dump):
+        """`Msg.saveBytes serMIR v` for the dump `V` of a built IR: the real
+        loader must accept those bytes and show the same content
+        (`load_dump(bytes) -> dump tokens`)"""
+        self.files.append((tag, "savefile " + " ".join(V), V, load_dump))
+
+    def flush_files(self):
+        if not self.files:
+            return
+        ctx = self.ctx
+        # the real loader's dump is put into the same order-insensitive form
+        # by the driver (`canonirv`): sets and dicts have no order to compare
+        lines = []
+        for _, l, exp, load_dump in self.files:
+            lines.append(l)
+            lines.append("canonirv " + exp[3:]
+                         if load_dump in (None, "faulty")
+                         and exp.startswith("ok ") else "canonirv -")
+        both = core.lean_batch("pbwire", lines)
+        out, canon = both[0::2], both[1::2]
+        for (tag, line, exp, load_dump), got, cexp in zip(self.files, out,
+                                                          canon):
+            if load_dump in (None, "faulty") and exp.startswith("ok ") and \
+                    cexp.startswith("ok "):
+                exp = cexp
+            if load_dump == "faulty":
+                a, b = got.startswith("ok "), exp.startswith("ok ")
+                if a and b and got != exp:
+                    # protobuf's reading of a corrupted body (see the module
+                    # docstring): counted
+                    ctx.count("pbwire:faulty-file:accepted-with-other-content")
+                elif got == "err:header" and b:
+                    ctx.tie_broken.append(
+                        "correspondence:pbwire %s loadfile: the model rejects "
+                        "the header of a file the real loader accepts" % tag)
+                else:
+                    ctx.count("pbwire:faulty-file:%s/%s" % (
+                        "accept" if a else got[:10], "accept" if b
+                        else "reject"))
+                    ctx.traces += 1
+            elif load_dump is None:
+                if got == exp or (got.startswith("err:")
+                                  and exp.startswith("err:")):
+                    ctx.count("pbwire:loadfile-agree:" + got[:3])
+                    ctx.traces += 1
+                elif got == "err:dup" or exp == "skip":
+                    ctx.count("pbwire:loadfile-outside-model")
+                else:
+                    d = next((j for j, (x, y) in enumerate(zip(
+                        got.split(" "), exp.split(" "))) if x != y), -1)
+                    ctx.tie_broken.append(
+                        "correspondence:pbwire %s loadfile: model %s..., real "
+                        "loader %s... (token %d: %s vs %s)" % (
+                            tag, got[:40], exp[:40], d,
+                            " ".join(got.split(" ")[max(0, d - 4):d + 3]),
+                            " ".join(exp.split(" ")[max(0, d - 4):d + 3])))
+            else:
+                parts = got.split(" ")
+                if parts[0] != "ok":
+                    ctx.count("pbwire:savefile-outside-notation")
+                    continue
+                if parts[2:4] != ["1", "1"]:
+                    ctx.count("pbwire:savefile-outside-domain")
+                    continue
+                try:
+                    back = load_dump(b"" if parts[1] == "-"
+                                     else bytes.fromhex(parts[1]))
+                except Exception as e:   # noqa
+                    back = ["raised", type(e).__name__, str(e)[:60]]
+                if back != exp:
+                    ctx.tie_broken.append(
+                        "correspondence:pbwire %s savefile: the real loader "
+                        "reads the model's file as %s" % (tag, back[:6]))
+                else:
+                    ctx.count("pbwire:savefile-agree")
+                    ctx.traces += 1
+        self.files = []
+
+    def add_raw(self, tag, raw):
+        """a body the real parser may reject (truncations, corruptions):
+        only layer 1 is compared - `decodeW` accepts exactly when the real
+        parser accepts the bytes as a message without known fields, and with
+        the same field list"""
+        self.raws.append((tag, bytes(raw)))
+        if len(self.raws) >= 4 * self.flush_at:
+            self.flush_raw()
+
+    def flush_raw(self):
+        if not self.raws:
+            return
+        ctx = self.ctx
+        out = core.lean_batch("pbwire", ["wire " + (r.hex() or "-")
+                                         for _, r in self.raws])
+        for (tag, raw), wire in zip(self.raws, out):
+            try:
+                view = _empty_view(raw)
+            except Exception:   # noqa
+                view = "reject"
+            if view is None:
+                ctx.count("pbwire:group")
+                continue
+            # where the two real back ends disagree with each other there is
+            # no common ground to compare with: field number 0 (upb keeps it
+            # as an unknown field, the pure-Python parser rejects) and field
+            # numbers >= 2^29 (the reverse)
+            fnos = [int(t.split(":")[0]) for t in
+                    (wire.split(" ")[2:] if wire.startswith("ok ") else [])
+                    + (view.split(" ")[2:] if view.startswith("ok ") else [])]
+            if view != wire and (any(f == 0 or f >= 2 ** 29 for f in fnos)
+                                 or b"\x00" in raw[:1] or wire == "reject"
+                                 and view.startswith("ok ") and " 0:" in view):
+                ctx.count("pbwire:wire-backends-disagree")
+            elif view != wire:
+                ctx.tie_broken.append(
+                    "correspondence:pbwire %s wire: model %s, real parser %s"
+                    % (tag, wire[:60], view[:60]))
+            else:
+                ctx.count("pbwire:raw-agree:" + ("reject" if wire == "reject"
+                                                 else "accept"))
+                ctx.traces += 1
+        self.raws = []
+
     def _parse_dump(self, hx):
         from gtirb.proto import IR_pb2
         m = IR_pb2.IR.FromString(b"" if hx == "-" else bytes.fromhex(hx))
         return irdump.dump_mir(m)
 
     def flush(self):
+        self.flush_raw()
+        self.flush_files()
         if not self.cases:
             return
         ctx = self.ctx
